@@ -84,7 +84,20 @@ def sweep(tier, maxn, maxL, rnd=None, per_class=None, deform=True):
     """(name, size, deformation, kwargs) cases over every class's supported family"""
     for name, cls in all_code_classes():
         sizes = small_sizes(cls, name, maxn, maxL)
-        if per_class and len(sizes) > per_class:
+        if per_class and len(sizes) > per_class and per_class >= 6:
+            # shape-covering choice: smallest, largest, every ordering of unequal extents (permutations of (2,3,4) / (2,4)), then a seeded sample
+            import itertools as _it
+            dim = len(sizes[0])
+            want = [sizes[0], sizes[-1]] + [p_ for base in ((2, 3, 4), (2, 4, 3), (2, 2, 4), (3, 4, 4)) for p_ in _it.permutations(base[:dim] if dim == 3 else base[:2])]
+            keep = []
+            for w_ in want:
+                if tuple(w_) in [tuple(x_) for x_ in sizes] and tuple(w_) not in keep:
+                    keep.append(tuple(w_))
+            rest = [x_ for x_ in sizes if tuple(x_) not in keep]
+            if rnd is not None:
+                rnd.shuffle(rest)
+            sizes = (keep + rest)[:max(per_class, len(keep))] if len(keep) <= per_class + 6 else keep[:per_class + 6]
+        elif per_class and len(sizes) > per_class:
             # keep the smallest, the largest and a seeded sample in between (non-cubic sizes included)
             keep = [sizes[0], sizes[-1]]
             mid = [s for s in sizes[1:-1]]
